@@ -18,7 +18,7 @@ echo "suite with change  : $suite"
 mkdir -p /verif/seeded/$name
 cp $src/change_${letter}.diff /verif/seeded/$name/patch.diff
 cp $src/demo_${letter}_test.go /verif/seeded/$name/demo_test.go
-out=$(cd /verif && VERIF_REPO=$wt ./check $prop --runs $runs 2>&1 | grep -E "^(VIOLATION|  class|$prop |NOTE|INCON)" | sed 's/replay=.*//' | sort | uniq -c | sort -rn | head -6)
+out=$(cd /verif && VERIF_REPO=$wt ./check $prop --runs $runs 2>&1 | grep -a -E "^(VIOLATION|  class|$prop |NOTE|INCON)" | sed 's/replay=.*//' | sort | uniq -c | sort -rn | head -6)
 echo "$out"
 detected=false; echo "$out" | grep -q VIOLATION && detected=true
 python3 - "$name" "$prop" "$demo_clean" "$demo_mut" "$suite" "$detected" "$runs" <<'PY'
